@@ -15,6 +15,7 @@ EXTENDS Integers, Sequences, FiniteSets, TLC, Json, CSV, IOUtils
 
 CONSTANTS MaxReq,       \* number of requests the server script may answer
           Parts,        \* initial .part classes
+          Finals,       \* what sits at the object's final place beforehand: "absent" | "stale" (same size, other bytes)
           Emit
 
 Obj  == <<1, 2, 3, 4, 5>>
@@ -37,11 +38,13 @@ Body(kind, from) ==
     [] OTHER                -> <<8, 8, 8, 8, 8>>
 Take(s, k) == SubSeq(s, 1, IF Len(s) < k THEN Len(s) ELSE k)
 
-VARIABLES pc, part, tmp, from, final, result, reqs, script, part0
-vars == <<pc, part, tmp, from, final, result, reqs, script, part0>>
+VARIABLES pc, part, tmp, from, final, result, reqs, script, part0, final0
+vars == <<pc, part, tmp, from, final, result, reqs, script, part0, final0>>
+Stale == <<8, 8, 8, 8, 8>>          \* a file of the object's size whose bytes are not the object's (e.g. damaged in place; --refetch)
+FinalOf(c) == IF c = "stale" THEN Stale ELSE <<>>
 
-Init == /\ part0 \in Parts /\ part = PartOf(part0)
-        /\ pc = "adopt" /\ tmp = <<>> /\ from = 0 /\ final = <<>> /\ result = "none"
+Init == /\ part0 \in Parts /\ part = PartOf(part0) /\ final0 \in Finals
+        /\ pc = "adopt" /\ tmp = <<>> /\ from = 0 /\ final = FinalOf(final0) /\ result = "none"
         /\ reqs = <<>> /\ script = <<>>
 
 \* DoTransfer: create the temp file, move the .part over it, hash it, decide whether to resume
@@ -51,11 +54,11 @@ Adopt == /\ pc = "adopt"
               THEN tmp' = part /\ from' = have            \* resume: hash preloaded with the part's bytes
               ELSE tmp' = <<>> /\ from' = 0               \* nothing, or too long to be worth it: truncate
          /\ part' = <<>> /\ pc' = "request"
-         /\ UNCHANGED <<final, result, reqs, script, part0>>
+         /\ UNCHANGED <<final, result, reqs, script, part0, final0>>
 
 Request == /\ pc = "request" /\ Len(reqs) < MaxReq
            /\ reqs' = Append(reqs, from) /\ pc' = "wait"
-           /\ UNCHANGED <<part, tmp, from, final, result, script, part0>>
+           /\ UNCHANGED <<part, tmp, from, final, result, script, part0, final0>>
 
 \* the attempt failed with a retriable error: the temp file is saved as .part, the queue retries
 FailRetriable == pc' = "adopt" /\ part' = tmp' /\ UNCHANGED <<from, final, result>>
@@ -67,7 +70,7 @@ Respond(st, body, cr, cut) ==
   /\ (st \notin {200, 206} => body = "exact" /\ cr = "missing" /\ cut = 0)       \* error answers carry nothing of interest
   /\ (st = 200 => cr = "missing")
   /\ script' = Append(script, [status |-> st, body |-> body, range |-> cr, cut |-> cut])
-  /\ UNCHANGED <<reqs, part0>>
+  /\ UNCHANGED <<reqs, part0, final0>>
   /\ IF st \notin {200, 206} THEN
         IF st = 416 /\ from > 0
           THEN /\ tmp' = <<>> /\ from' = 0 /\ pc' = "request" /\ UNCHANGED <<part, final, result>>   \* re-download from the start
@@ -90,17 +93,17 @@ Respond(st, body, cr, cut) ==
 \* the queue's retry budget is spent, or the script is: report failure
 GiveUp == /\ pc = "request" /\ Len(reqs) >= MaxReq
           /\ pc' = "done" /\ result' = "fail" /\ part' = tmp
-          /\ UNCHANGED <<tmp, from, final, reqs, script, part0>>
+          /\ UNCHANGED <<tmp, from, final, reqs, script, part0, final0>>
 
 Next == Adopt \/ Request \/ GiveUp \/ \E st \in Statuses, b \in Bodies, cr \in Ranges, cut \in Cuts : Respond(st, b, cr, cut)
 Spec == Init /\ [][Next]_vars
 
 \* ---- C02 ---------------------------------------------------------------------
-OkMeansValid      == result = "ok" => final = Obj
-FailLeavesNoFinal == result = "fail" => final = <<>>
-FinalOnlyValid    == final \in {<<>>, Obj}
+OkMeansValid      == result = "ok" => final = Obj                    \* also when a stale file was there: it is replaced
+FailLeavesNoFinal == result = "fail" => final = FinalOf(final0)      \* nothing created, nothing replaced
+FinalOnlyValid    == final \in {FinalOf(final0), Obj}
 
-Out == [part |-> part0, script |-> script', result |-> result', requests |-> reqs',
+Out == [part |-> part0, final0 |-> final0, script |-> script', result |-> result', requests |-> reqs',
         finalValid |-> (final' = Obj), partLenAfter |-> Len(part')]
 EmitEdge == (Emit /\ pc' = "done" /\ pc # "done") => CSVWrite("%1$s", <<ToJson(Out)>>, IOEnv.OUT)
 =============================================================================
